@@ -45,12 +45,32 @@ class HistTrav(Hist):
         cyclic = rng.random() < 0.08
         if cyclic:
             return self.cycle_case(op, rng)
-        s = self.pick(rng, lambda s: s.net.gates and s.net.is_acyclic())
+        big = None
+        if rng.random() < 0.004:
+            # a circuit of well over a thousand gates (work lists, recursion depths and counters of that size)
+            bnet = gennet.random_net(rng, rng.randint(4, 10), rng.randint(1100, 1800), [t for t in ALL_TYPES if t != 'INPUT'], 3, 'plain',
+                                     n_outputs=rng.randint(1, 4), locality=rng.choice((0.3, 0.6, 0.9)))
+            try:
+                big = self.new_slot(observe.build_real(self.Circuit, self.GT, bnet))
+                st.bump('traversal-of-a-circuit-with-more-than-a-thousand-gates')
+            except Exception:  # noqa
+                big = None
+        s = big or self.pick(rng, lambda s: s.net.gates and s.net.is_acyclic())
         if s is None:
             return
+        try:
+            return self._traverse_slot(s, op, rng)
+        finally:
+            if big is not None and big in self.pop:
+                self.pop.remove(big)
+
+    def _traverse_slot(self, s, op, rng):
+        st = self.res.stats.probes
         net, real = self.reread(s), s.real
         labels = list(net.gates)
         ntasks = weighted_choice(rng, [(1, 2), (2, 4), (3, 3), (4, 2)])
+        if len(labels) > 500:
+            ntasks = 1
         self.seq = 0
         tasks = []
         faults = {f['at']: f['kind'] for f in op.get('f', ())}
